@@ -3,6 +3,7 @@ import ComposeVerif.Lemmas.C01Dep
 import ComposeVerif.Lemmas.C01Inc
 import ComposeVerif.Lemmas.C01Ext
 import ComposeVerif.Lemmas.C01Reset
+import ComposeVerif.Lemmas.C01Mono
 /-!
 # C01 — loading is total: a project or an error, never a crash or a hang
 
@@ -248,5 +249,47 @@ theorem dependsOn_cycle_err (g : Dep.G) (hg : Dep.Closed g) (v : String) (hv : v
 
 example : Dep.checkCycle [("a", ["b"]), ("b", ["c"]), ("c", ["b"])] 4 = .cycle ["b", "c", "b"] := by decide
 example : Dep.checkCycle [("a", ["b", "c"]), ("b", ["c"]), ("c", [])] 4 = .ok := by decide
+
+/-! ## the fuel is a proof device only: above the bound the answer does not depend on it -/
+
+/-- `extends_fuel_independent` (the DESIGN §2.4 form of totality): every fuel above the size of the reference
+universe gives the same outcome, the same nil-flag and the same memoised services map -/
+theorem extends_fuel_independent (fs : Ext.FS) (main : String) (svcs : Ext.Services) (name : String) (f1 f2 : Nat)
+    (h1 : (Ext.refUniverse fs main svcs).length < f1) (h2 : (Ext.refUniverse fs main svcs).length < f2) :
+    Ext.resolve fs main f1 svcs name [] = Ext.resolve fs main f2 svcs name [] := by
+  have hb := extends_terminates fs main svcs name ((Ext.refUniverse fs main svcs).length + 1) (Nat.lt_succ_self _)
+  have e1 := Ext.resolve_mono_le fs main svcs name [] _ hb (f1 - ((Ext.refUniverse fs main svcs).length + 1))
+  have e2 := Ext.resolve_mono_le fs main svcs name [] _ hb (f2 - ((Ext.refUniverse fs main svcs).length + 1))
+  rw [show (Ext.refUniverse fs main svcs).length + 1 + (f1 - ((Ext.refUniverse fs main svcs).length + 1)) = f1 by omega] at e1
+  rw [show (Ext.refUniverse fs main svcs).length + 1 + (f2 - ((Ext.refUniverse fs main svcs).length + 1)) = f2 by omega] at e2
+  rw [e1, e2]
+
+/-- `include_fuel_independent_partial` -/
+theorem include_fuel_independent_partial (fs : Inc.FS) (hs : Inc.SinglePath fs) (files : List String) (f1 f2 : Nat)
+    (h1 : (Inc.keys fs).length < f1) (h2 : (Inc.keys fs).length < f2) :
+    Inc.loadModel fs f1 files [] = Inc.loadModel fs f2 files [] := by
+  have hb := include_terminates_partial fs hs files ((Inc.keys fs).length + 1) (Nat.lt_succ_self _)
+  have e1 := Inc.loadModel_mono_le fs files [] _ hb (f1 - ((Inc.keys fs).length + 1))
+  have e2 := Inc.loadModel_mono_le fs files [] _ hb (f2 - ((Inc.keys fs).length + 1))
+  rw [show (Inc.keys fs).length + 1 + (f1 - ((Inc.keys fs).length + 1)) = f1 by omega] at e1
+  rw [show (Inc.keys fs).length + 1 + (f2 - ((Inc.keys fs).length + 1)) = f2 by omega] at e2
+  rw [e1, e2]
+
+/-- `checkCycle_fuel_independent` -/
+theorem checkCycle_fuel_independent (g : Dep.G) (hg : Dep.Closed g) (f1 f2 : Nat) (h1 : g.length < f1) (h2 : g.length < f2) :
+    Dep.checkCycle g f1 = Dep.checkCycle g f2 := by
+  have key : ∀ f, g.length < f → Dep.checkCycle g f = Dep.checkCycle g (g.length + 1) := by
+    intro f hf
+    unfold Dep.checkCycle
+    apply Dep.checkFrom_congr
+    intro v hv
+    have hb : Dep.searchCycle g (g.length + 1) [v] v ≠ .outOfFuel := by
+      apply Dep.searchCycle_ne_fuel g hg _ [v] v (by simp)
+      · intro x hx; simp only [List.mem_singleton] at hx; subst hx; simpa [Dep.verts] using hv
+      · simp only [Dep.verts, List.length_map, List.length_singleton]; omega
+    have e := Dep.searchCycle_mono_le g [v] v _ hb (f - (g.length + 1))
+    rw [show g.length + 1 + (f - (g.length + 1)) = f by omega] at e
+    exact e
+  rw [key f1 h1, key f2 h2]
 
 end CV.C01
